@@ -224,6 +224,8 @@ def correspond(q, cap, rng, modules=None, meta=None, rtol=1e-9):
     for mod, md in meta['modules'].items():
         if modules and mod not in modules:
             continue
+        if md.get('source') == 'AST extraction':
+            continue
         if ORDER_NEEDED.get(mod, 1) > order_rank:
             continue
         if mod == 'Shear' and 'calculate_shear' not in cap.locals:
